@@ -130,14 +130,15 @@ pub fn gen_program(rng: &mut Rng, big: bool) -> Program {
             late_split: None,
         });
     }
-    let sizes = [None, Some(0u64), Some(100), Some(1000), Some(16384), Some((1 << 62) - 1)];
+    // configured values sit on both sides of every varint form boundary (they go on the wire)
+    let sizes = [None, None, Some(0u64), Some(100), Some(1000), Some(16383), Some(16384), Some((1 << 30) - 1), Some(1 << 30), Some(3 << 30), Some((1 << 32) - 1), Some(1 << 32), Some((1 << 62) - 1)];
     let scfg = SrvCfg {
         max_field_section_size: *rng.pick(&sizes),
         grease: Some(rng.bool()),
         webtransport: Some(rng.chance(1, 4)),
         extended_connect: Some(rng.chance(1, 3)),
         datagram: Some(rng.chance(1, 3)),
-        max_wt_sessions: if rng.chance(1, 4) { Some(rng.below(1 << 20)) } else { None },
+        max_wt_sessions: if rng.chance(1, 4) { Some(*rng.pick(&[0u64, 1, 63, 64, 16383, 16384, (1 << 30) - 1, 1 << 30, (1 << 32) - 1, 1 << 40])) } else { None },
     };
     let ccfg = CliCfg {
         max_field_section_size: *rng.pick(&sizes),
